@@ -126,6 +126,14 @@ class C06(E1Check):
         for n in (3, 60):
             for order in ("wp", "pw"):
                 progs.append({"kind": "burst", "n": n, "order": order, "small": False})
+        # one component gives up waiting (its wait is cancelled) before the publication; another one keeps waiting
+        for order in ("cwp", "wcp", "pcw", "cpw", "wpc"):
+            for wg in (False, True):
+                progs.append({"kind": "giveup", "order": order, "wgate": wg, "small": True})
+        # a two-type publication that is refused because its second type is taken, then published under the free type only
+        for order in ("wp", "pw"):
+            for pg in (False, True):
+                progs.append({"kind": "refused", "order": order, "pgate": pg, "small": True})
         for optional_from in ("component-optional", "outer", "service"):
             for seq in (("M-res",), ("N-type",)):
                 for g in (False, True):
@@ -194,6 +202,16 @@ class C06(E1Check):
             steps2.append(("add", "RA", "n", "wanted"))
             pub = {"alias": "p", "children": [], "prepare": None, "start": steps2}
             kids = [w, pub] if p["order"] == "wp" else [pub, w]
+        elif kind == "giveup":
+            wc = {"alias": "c", "children": [], "prepare": None, "start": [("getc", "RA", "n", "c")]}
+            w = waiter("w", "start", p["wgate"], "shortcut")
+            pub = {"alias": "p", "children": [], "prepare": None, "start": [("gate", "p"), ("add", "RA", "n", "wanted")]}
+            kids = [{"c": wc, "w": w, "p": pub}[ch] for ch in p["order"]]
+        elif kind == "refused":
+            w = waiter("w", "start", False, "shortcut")
+            pub = {"alias": "p", "children": [], "prepare": None,
+                   "start": [("add", "RB", "n", "taken")] + ([("gate", "p")] if p["pgate"] else []) + [("addx", "RAB", "n", "both"), ("add", "RA", "n", "fallback")]}
+            kids = [w, pub] if p["order"] == "wp" else [pub, w]
         elif kind == "multi":
             # one component with two requests for different pairs pending at once; published in the given order
             w = {"alias": "w", "children": [], "prepare": None,
@@ -226,14 +244,14 @@ class C06(E1Check):
         return {"alias": "", "children": kids, "prepare": None, "start": None}
 
     def has_match(self, p: dict) -> bool:
-        if p["kind"] in ("multi", "burst", "flaky", "generic", "audit"):
+        if p["kind"] in ("multi", "burst", "flaky", "generic", "audit", "giveup", "refused"):
             return True
         if p["kind"] == "alias":
             return p["where"] == "start"
         return any(MENU[i][0] for i in p["seq"])
 
     def deadlock_ok(self, program: Any) -> bool:
-        return program["kind"] in ("basic", "alias", "two", "multi", "burst", "flaky", "generic", "audit") and not self.has_match(program)
+        return program["kind"] in ("basic", "alias", "two", "multi", "burst", "flaky", "generic", "audit", "giveup", "refused") and not self.has_match(program)
 
     async def main(self, env: Any, program: dict) -> None:
         from asphalt.core import Context, ResourceNotFound, start_component
@@ -307,7 +325,7 @@ class C06(E1Check):
                 pubs.append((i, ev))
             elif ev[0] == "get+" and not ev[5]:
                 issued[ev[1]] = (ev[2], ev[3])
-            elif ev[0] in ("get-", "get!"):
+            elif ev[0] in ("get-", "get!", "get-cancelled"):
                 done.add(ev[1])
         for w, want in issued.items():
             if w in done or w in ("outer", "svc"):
@@ -384,8 +402,9 @@ class C06(E1Check):
                 else:
                     fail("false-failure", f"waiter {who} failed with {ev[2]} (matching publication index {match_idx})")
         # completion: with a matching publication every waiter returns and start-up completes
-        if kind in ("basic", "alias", "two", "multi", "burst", "generic", "audit"):
-            waiters = {"basic": ["w"], "alias": ["w"], "two": ["w1", "w2"], "multi": ["wa", "wb"], "burst": ["w"], "generic": ["w"], "audit": ["w"]}[kind]
+        if kind in ("basic", "alias", "two", "multi", "burst", "generic", "audit", "giveup", "refused"):
+            waiters = {"basic": ["w"], "alias": ["w"], "two": ["w1", "w2"], "multi": ["wa", "wb"], "burst": ["w"], "generic": ["w"], "audit": ["w"],
+                       "giveup": ["w"], "refused": ["w"]}[kind]
             if self.has_match(program):
                 for w in waiters:
                     if not any(ev[0] == "get-" and ev[1] == w for ev in tr):
